@@ -357,6 +357,22 @@ func c16Exec(x *Ctx) {
 						}
 					}
 				}
+				// and the source fid can still be walked from, if it is a directory with something in it
+				if sfi, err := os.Lstat(srcWant); err == nil && sfi.IsDir() {
+					if es, _ := os.ReadDir(srcWant); len(es) > 0 {
+						child := es[r.Intn(len(es))].Name()
+						fidno++
+						if wr := call(&Msg{Type: Twalk, Fid: src, Newfid: fidno, Wname: []string{child}}); wr != nil && wr.M != nil {
+							if wr.M.Type != Rwalk || len(wr.M.Wqid) != 1 {
+								x.Violate("w3-source-fid", "%s: afterwards a walk from the source fid (now %q) to its entry %q answered %s", what, filepath.Base(srcWant), child, wr.M)
+							} else {
+								q := wr.M.Wqid[0]
+								c16CheckStat(x, nil, &q, filepath.Join(srcWant, child), dotu, "walk from the source fid after "+what)
+								call(&Msg{Type: Tclunk, Fid: fidno})
+							}
+						}
+					}
+				}
 				if !inplace {
 					nr := call(&Msg{Type: Tstat, Fid: nf})
 					if nr != nil && nr.M != nil {
@@ -366,6 +382,19 @@ func c16Exec(x *Ctx) {
 								x.Violate("w4-newfid", "%s: Tstat of the new fid answered %s", what, nr.M)
 							} else {
 								c16CheckStat(x, &nr.M.Stat, nil, tgt, dotu, "Tstat of newfid after "+what)
+								// the fid keeps designating the same object once it is open (a symbolic link is
+								// opened through, but the fid still names the link)
+								if r.Pct(50) {
+									if or := call(&Msg{Type: Topen, Fid: nf, Mode: 0}); or != nil && or.M != nil && or.M.Type == Ropen {
+										if sr := call(&Msg{Type: Tstat, Fid: nf}); sr != nil && sr.M != nil && sr.M.Type == Rstat {
+											c16CheckStat(x, &sr.M.Stat, nil, tgt, dotu, "Tstat of the opened newfid after "+what)
+											x.Probe("stat-of-open-fid")
+										} else if sr != nil && sr.M != nil {
+											x.Violate("w4-newfid", "%s: Tstat of the new fid, once open, answered %s", what, sr.M)
+										}
+									}
+									call(&Msg{Type: Tclunk, Fid: nf})
+								}
 							}
 						} else if nr.M.Type != Rerror || nr.M.Ename != "unknown fid" {
 							x.Violate("w4-newfid", "%s: the walk was not complete, yet the new fid answers Tstat with %s", what, nr.M)
